@@ -395,12 +395,19 @@ def enc_pairs(ps):
 
 
 def rt_flag(q):
-    """does QueryParams(str(q)) == q ?  X when str() raises"""
+    """does QueryParams(str(q)) == q (string form given as str, and as bytes) ?  X when str() raises"""
     try:
         s = str(q)
     except UnicodeEncodeError:
         return "X"
-    return "1" if (QueryParams(s) == q) is True else "0"
+    if (QueryParams(s) == q) is not True:
+        return "0"
+    # ... and in its other presentation: the same string form as the bytes an ASGI server hands over
+    try:
+        raw = s.encode("latin-1")
+    except UnicodeEncodeError:
+        return "1"
+    return "1" if (QueryParams(raw) == q) is True else "0"
 
 
 def impl_enc(args):
